@@ -669,6 +669,82 @@ func (il *inliner) substituteAll(body *ast.BlockStmt) bool {
 	return did
 }
 
+// tailSplice: a function (or function literal) whose whole body is `return h(args)` or `h(args)`
+// for a new helper h is h with its parameters bound: h's body — defers, recovers and all — can
+// take the place of the call, because everything in it still runs, and ends, with the
+// enclosing function. (This is the one place a helper containing defer can be expanded.)
+func (il *inliner) tailSplice(body *ast.BlockStmt) bool {
+	if body == nil || len(body.List) != 1 {
+		return false
+	}
+	var call *ast.CallExpr
+	switch x := body.List[0].(type) {
+	case *ast.ReturnStmt:
+		if len(x.Results) == 1 {
+			call, _ = x.Results[0].(*ast.CallExpr)
+		}
+	case *ast.ExprStmt:
+		call, _ = x.X.(*ast.CallExpr)
+	}
+	if call == nil || call.Ellipsis.IsValid() {
+		return false
+	}
+	il.anyCandidate = true
+	c, recv, ok := il.calleeOf(call)
+	il.anyCandidate = false
+	if !ok || c.hoistable || c.obj == il.encl || !il.visibleAt(c, call.Pos()) {
+		return false // (hoistable helpers go the ordinary way)
+	}
+	for _, r := range c.fields(c.fd.Type.Results) {
+		if r.name != "" {
+			return false
+		}
+	}
+	params := c.fields(c.fd.Type.Params)
+	if len(params) != len(call.Args) {
+		return false
+	}
+	if ps := c.fd.Type.Params.List; len(ps) > 0 {
+		if _, variadic := ps[len(ps)-1].Type.(*ast.Ellipsis); variadic {
+			return false
+		}
+	}
+	il.n++
+	p := fmt.Sprintf("_inl%d_%d", il.round, il.n)
+	var b strings.Builder
+	b.WriteString("{\n")
+	var ln, rn []string
+	k := 0
+	if c.fd.Recv != nil {
+		rf := c.fd.Recv.List[0]
+		tmp := fmt.Sprintf("%s_a%d", p, k)
+		k++
+		fmt.Fprintf(&b, "var %s %s = %s\n_ = %s\n", tmp, c.text(rf.Type), recv, tmp)
+		if len(rf.Names) > 0 && rf.Names[0].Name != "_" {
+			ln, rn = append(ln, rf.Names[0].Name), append(rn, tmp)
+		}
+	}
+	for i, pr := range params {
+		tmp := fmt.Sprintf("%s_a%d", p, k)
+		k++
+		fmt.Fprintf(&b, "var %s %s = %s\n_ = %s\n", tmp, pr.typ, il.text(call.Args[i]), tmp)
+		if pr.name != "" && pr.name != "_" {
+			ln, rn = append(ln, pr.name), append(rn, tmp)
+		}
+	}
+	b.WriteString("{\n")
+	if len(ln) > 0 {
+		fmt.Fprintf(&b, "%s := %s\n%s = %s\n", strings.Join(ln, ", "), strings.Join(rn, ", "), strings.Repeat("_, ", len(ln)-1)+"_", strings.Join(ln, ", "))
+	}
+	b.WriteString(string(c.src[c.tf.Offset(c.fd.Body.Lbrace)+1 : c.tf.Offset(c.fd.Body.Rbrace)]))
+	b.WriteString("\n}\n}")
+	st := body.List[0]
+	il.edits = append(il.edits, edit{il.off(st.Pos()), il.off(st.End()), b.String()})
+	il.sites++
+	il.helpers[c.obj.FullName()] = true
+	return true
+}
+
 // litText renders candidate c as a function literal: its own parameter list, results and body,
 // with the receiver (if any) as an additional first parameter when asParam is set, or bound to
 // recvExpr inside the body otherwise.
@@ -1066,7 +1142,9 @@ func (il *inliner) shortCircuit(s ast.Stmt, anchor, wrapEnd token.Pos, cond ast.
 func (il *inliner) funcLits(s ast.Node) {
 	ast.Inspect(s, func(n ast.Node) bool {
 		if fl, ok := n.(*ast.FuncLit); ok {
-			il.stmts(fl.Body.List)
+			if !il.tailSplice(fl.Body) {
+				il.stmts(fl.Body.List)
+			}
 			return false
 		}
 		return true
@@ -1176,7 +1254,7 @@ func inlineRound(pkgs []*packages.Package, dir string, round int, overlay map[st
 					continue
 				}
 				il.encl = obj
-				if !il.substituteAll(fd.Body) && !il.valueRefs(fd.Body) {
+				if !il.substituteAll(fd.Body) && !il.valueRefs(fd.Body) && !il.tailSplice(fd.Body) {
 					il.stmts(fd.Body.List)
 				}
 			}
